@@ -408,6 +408,11 @@ def main(path, default_bg, mode, premium):
             output_filename = file_path.stem + "_cm" + file_path.suffix
             output_path = file_path.parent / output_filename
 
+            if output_path.is_symlink():
+                # never write through a link left at the output path (it may point at
+                # another file of the project, even at one of the inputs)
+                output_path.unlink()
+
             with open(output_path, "w", encoding="utf-8") as f:
                 f.write(tinycss2.serialize(rules))
 
